@@ -66,6 +66,10 @@ type Case struct {
 	OddDirs    bool      `json:"oddDirs,omitempty"`   // node directories with glob / regexp metacharacters in their names
 	SplitDirs  bool      `json:"splitDirs,omitempty"` // the shard manager's directory differs from the node's root directory
 	Fault      Fault     `json:"fault"`
+	// Rollback: after the interrupted synchronisation the operator goes back to the OLD server list: every
+	// node restarts with it and synchronises; what the interrupted transfer left behind on the way must not
+	// replace the complete copies
+	Rollback bool `json:"rollback,omitempty"`
 }
 
 func subset(t *rapid.T, label string, n int) []int {
@@ -110,7 +114,7 @@ func genCase(t *rapid.T) Case {
 		}
 	}
 	for i := 0; i < nb; i++ {
-		sizes := []int{1, 100, chunk - 1, chunk, chunk + 1}
+		sizes := []int{0, 1, 100, chunk - 1, chunk, chunk + 1}
 		if vt.Thorough() {
 			sizes = append(sizes, 2*chunk, 2*chunk+7)
 		}
@@ -126,6 +130,12 @@ func genCase(t *rapid.T) Case {
 		c.Fault = Fault{Kind: "chunk", Call: rapid.IntRange(1, 4).Draw(t, "fcall"), Chunk: rapid.SampledFrom([]int{-1, 0, 1, 1, 2}).Draw(t, "fchunk")}
 		if rapid.IntRange(0, 2).Draw(t, "freply") == 0 {
 			c.Fault.Kind = "replylost"
+		}
+		c.Rollback = rapid.IntRange(0, 3).Draw(t, "rollback") == 0
+		if c.Rollback && rapid.Bool().Draw(t, "rollbackTorso") {
+			// a transfer that stops between two chunks of a shard larger than one chunk leaves a torso behind
+			c.Blobs = append(c.Blobs, Blob{Node: rapid.IntRange(0, len(c.Old)-1).Draw(t, "torsoNode"), User: "bob", Col: "blobcol", Size: chunk + 1, Seed: 201})
+			c.Fault = Fault{Kind: "chunk", Call: 1, Chunk: rapid.SampledFrom([]int{1, 2}).Draw(t, "torsoChunk")}
 		}
 	} else {
 		c.Fault = Fault{Kind: "none"}
@@ -526,6 +536,7 @@ func execCase(c Case) (res vt.Result) {
 		return errs
 	}
 	faulted := false
+	target, targetIdx := newServers, c.New
 	if c.Fault.Kind == "chunk" || c.Fault.Kind == "replylost" {
 		var calls atomic.Int64
 		fn := func(point string, index int) error {
@@ -596,7 +607,15 @@ func execCase(c Case) (res vt.Result) {
 				}
 			}
 		}
-		// the clean re-sync (a restart of every node)
+		// the clean re-sync (a restart of every node), with the new list or, after a roll-back, the old one
+		if c.Rollback && faulted {
+			e.stopAll()
+			if err := e.start(running, oldServers); err != nil {
+				return fail("restart with the old list: %v", err)
+			}
+			target, targetIdx = oldServers, c.Old
+			rec.Count("rollbacks_after_an_interrupted_sync", 1)
+		}
 		if errs := runSync(); len(errs) > 0 {
 			return fail("the clean synchronisation after an interrupted one fails: %v", errs)
 		}
@@ -610,7 +629,7 @@ func execCase(c Case) (res vt.Result) {
 	}
 	moved := 0
 	for id, orig := range before {
-		owner := cluster.RendezvousHash(id, newServers, 1)[0]
+		owner := cluster.RendezvousHash(id, target, 1)[0]
 		copies := after[id]
 		if len(copies) != 1 {
 			return fail("after the sync shard %s exists %d times: %+v", id, len(copies), copies)
@@ -639,7 +658,7 @@ func execCase(c Case) (res vt.Result) {
 		return fail("records: %v", err)
 	}
 	for key, rb := range recsBefore {
-		owner := cluster.RendezvousHash(rb.UserId, newServers, 1)[0]
+		owner := cluster.RendezvousHash(rb.UserId, target, 1)[0]
 		h := holders[key]
 		if len(h) != 1 || e.specs[h[0]].Name() != owner {
 			var names []string
@@ -658,8 +677,8 @@ func execCase(c Case) (res vt.Result) {
 			return fail("a collection record %s appeared", key)
 		}
 	}
-	// every stored point is readable through every node of the new set
-	for _, k := range c.New {
+	// every stored point is readable through every node of the new set (of the old one after a roll-back)
+	for _, k := range targetIdx {
 		for ci, cs := range c.Cols {
 			col, err := e.nodes[k].GetCollection(cs.User, cs.Col)
 			if err != nil {
